@@ -186,6 +186,7 @@ type vfNet struct {
 	dupPct  int
 	offered map[int]map[uint64]int
 	blockOrder map[uint64][]string
+	withheld []vfPending // Byzantine votes not yet shown to their addressee
 	parts   [][]int // current partition (groups of validator indices); nil = none
 }
 
